@@ -401,7 +401,8 @@ fn resolve_posix_tz_string_for_epoch_seconds(
         TransitionType::Std => end,
     };
     let year = utils::epoch_time_to_epoch_year(seconds * 1000);
-    let year_epoch = utils::epoch_days_for_year(year) * 86400;
+    // NOTE: in seconds this exceeds an i32 for every year after 2037.
+    let year_epoch = i64::from(utils::epoch_days_for_year(year)) * 86400;
     let leap_day = utils::mathematical_in_leap_year(seconds * 1000) as u16;
 
     let days = match transition.day {
@@ -414,7 +415,7 @@ fn resolve_posix_tz_string_for_epoch_seconds(
 
             // Month starts in the day...
             let day_offset =
-                (u16::from(utils::epoch_seconds_to_day_of_week(i64::from(year_epoch)))
+                (u16::from(utils::epoch_seconds_to_day_of_week(year_epoch))
                     + days_to_month)
                     .rem_euclid(7);
 
@@ -454,7 +455,7 @@ fn resolve_posix_tz_string_for_epoch_seconds(
     // Transition time is on local time, so we need to add the UTC offset to get the correct UTC timestamp
     // for the transition.
     let transition_epoch =
-        i64::from(year_epoch) + i64::from(days) * 86400 + transition.time.0 - old_offset;
+        year_epoch + i64::from(days) * 86400 + transition.time.0 - old_offset;
     Ok(TimeZoneOffset {
         offset: new_offset,
         transition_epoch: Some(transition_epoch),
